@@ -2,7 +2,6 @@ package main
 
 import (
 	"fmt"
-	"go/token"
 	"go/types"
 	"sort"
 	"strings"
@@ -377,25 +376,7 @@ func (c *Ctx) resetFunctions() []*ssa.Function {
 func (c *Ctx) checkExpiredContextWritesNothing(r *Report, rule string) {
 	stateT := c.TypeNamed("eval", "State")
 	ev := c.SSAFn(c.Fn("eval", "State.evalInternal"))
-	var arm *ssa.BasicBlock
-	for _, b := range ev.Blocks {
-		ifi, ok := b.Instrs[len(b.Instrs)-1].(*ssa.If)
-		if !ok {
-			continue
-		}
-		bin, ok := ifi.Cond.(*ssa.BinOp)
-		if !ok || bin.Op != token.NEQ || !isNilConst(bin.Y) {
-			continue
-		}
-		call, ok := bin.X.(*ssa.Call)
-		if !ok || !call.Common().IsInvoke() || call.Common().Method.Name() != "Err" {
-			continue
-		}
-		if ld, ok := call.Common().Value.(*ssa.UnOp); ok && isFieldAddrOf(ld.X, stateT, "Context") {
-			arm = b.Succs[0]
-			break
-		}
-	}
+	arm, _ := c.expiredContextArm(ev)
 	if arm == nil {
 		r.Undecided("%s: the expired-context test of evalInternal was not found", rule)
 		return
